@@ -7,6 +7,7 @@ import Mathlib.Algebra.Order.Field.Basic
 import Mathlib.Order.Basic
 import Mathlib.Data.List.Sort
 import Mathlib.Data.List.Perm.Basic
+import Mathlib.Algebra.BigOperators.Group.List.Basic
 import Mathlib.Tactic.Ring
 import Mathlib.Tactic.FieldSimp
 import Mathlib.Tactic.Positivity
@@ -131,6 +132,19 @@ theorem diffs_nonneg : ∀ F : List α, F.Pairwise (· ≤ ·) → ∀ d ∈ dif
     · have := (List.pairwise_cons.mp h).1 b (List.mem_cons_self ..)
       linarith
     · exact diffs_nonneg (b :: rest) (List.pairwise_cons.mp h).2 d hd
+
+/-- Differences telescope: their sum is last − first. -/
+theorem diffs_sum : ∀ (a : α) (F : List α), (diffs (a :: F)).sum = (a :: F).getLast (List.cons_ne_nil _ _) - a
+  | a, [] => by simp [diffs]
+  | a, b :: rest => by
+    have ih := diffs_sum b rest
+    simp only [diffs, List.sum_cons, ih, List.getLast_cons_cons]
+    ring
+
+theorem sum_map_mul_left' (c : α) (l : List α) : (l.map (fun d => c * d)).sum = c * l.sum := by
+  induction l with
+  | nil => simp
+  | cons x xs ih => simp only [List.map_cons, List.sum_cons, ih]; ring
 
 /-- The stored row in closed form. -/
 theorem fillRow_eq (F : List α) :
